@@ -470,12 +470,12 @@ def record_inputs(case):
 
 
 def stride_cases():
-    """fixed 1D programmes with more than 10 000 steps (save strides 3 and 4) that freeze completely – shared by
+    """fixed 1D programmes with more than 10 000 steps (save strides 3 and 2) that freeze completely – shared by
     C08 (first crossing evaluated on EVERY step, not only on the recorded ones) and C13 (stride logic)"""
     h = 0.02
     dt = dt_1d_default(h)
     out = []
-    for k, rate, fr, n in ((2000, 0.5, 0.3, 21000), (400, 0.5, 0.7, 24000), (2000, 0.5, 0.05, 31000)):
+    for k, rate, fr, n in ((2000, 0.5, 0.3, 21000), (400, 0.5, 0.7, 24000), (2000, 0.5, 0.05, 15000)):
         out.append(dict(dim="1D", config="shelf", height=h, k_s0=k, t_tot=n * dt, start=20, stop=-50, rate=rate,
                         holds=None, cnTemp=None, Frand=fr, frkind="mid", kind="stride>1", row_stride=211))
     return out
